@@ -248,8 +248,14 @@ def classify_exc(e):
 
 
 def run_searcher(built, fs, K):
+    from vh import core
+    limit = core.MULTI_LIMIT if len(fs.files) > 1 else core.SINGLE_LIMIT
     try:
-        results = fs.run()
+        with core.time_limit(limit):
+            results = fs.run()
+    except core.CaseTimeout:
+        core.kill_children()
+        return {'err': f'hang(>{limit}s)'}
     except Exception as e:  # pylint: disable=broad-except
         return {'err': classify_exc(e)}
     st = fs.stats
